@@ -384,6 +384,48 @@ def run(loader, R, tier):
                                     fmt(Counter(dict(ordered[0][0])))))
     R.floor("exact leaf classes compared across evaluators", nleaf, 2)
 
+    # R12.6: the complex evaluators use the complex overloads of the
+    # functions whose real version has a restricted domain (a real pow/sqrt/
+    # log of a negative argument is NaN where the complex value exists)
+    R.rule("R12.6", "complex-domain evaluators call the complex overload of "
+                    "domain-restricted functions")
+    RESTRICTED = {"pow", "sqrt", "log", "log2", "log10", "log1p", "asin",
+                  "acos", "acosh", "atanh"}
+    n6 = 0
+    for u, f in sorted(prog.functions.items(), key=lambda kv: kv[1]["qn"]):
+        cls = f.get("cls") or ""
+        if not f.get("body") or f.get("dependent") \
+                or f.get("tk") == "pattern":
+            continue
+        if not (("EvalDouble" in cls or "LambdaDouble" in cls
+                 or "EvalComplexDouble" in cls
+                 or "LambdaComplexDouble" in cls)
+                and ("Complex" in cls or "complex<" in cls)):
+            continue
+        for n in walk(f["body"]):
+            if n.get("k") == "call" and n.get("n") in RESTRICTED \
+                    and n.get("u"):
+                n6 += 1
+                cplx = "complex" in n["u"]
+                key = "%s::%s(%s):%s" % (
+                    short(cls).split("<")[0], f["n"], short(
+                        f["params"][0]["t"]) if f.get("params") else "",
+                    n["n"])
+                R.instance("R12.6", key + "@%s" % n.get("l"),
+                           sample={"call": show(n)[:60],
+                                   "complex_overload": cplx})
+                if not cplx:
+                    R.violation(
+                        "R12.6", key, prog.loc(f, n.get("l")),
+                        "%s, which evaluates in the complex domain, calls "
+                        "the real `%s` (`%s`): for an argument outside the "
+                        "real domain (a negative base with a non-integer "
+                        "exponent, the root or logarithm of a negative "
+                        "number) it yields NaN where the complex value "
+                        "exists, and the evaluators disagree" % (
+                            short(f["qn"]), n["n"], show(n)[:50]))
+    R.floor("domain-restricted calls in complex evaluators", n6, 8)
+
     # relationals: the comparison operator is the formula
     RELDEF = {"Equality": "==", "Unequality": "!=", "LessThan": "<=",
               "StrictLessThan": "<"}
